@@ -201,10 +201,16 @@ def random_cases(rng, n):
 
 
 def config_cases(rng, n):
-    """other default_field_case settings (correspondence only: the oracle is stated for the default)."""
+    """other default_field_case settings, unknown ones included (oracle applied; class C06-7 where the
+    setting changes a field of a struct without rename_all)."""
     out = []
     for _ in range(n):
         c = rand_container(rng, True)
+        if rng.random() < 0.5:            # where the setting matters: a struct without rename_all
+            c["kind"] = "struct"
+            c["cattrs"] = cattrs_for(None, rng.randrange(2))
+            for it in c["items"]:
+                it["ident"] = it["ident"].lower() if it["ident"][:2] != "r#" else it["ident"]
         c["dfc"] = rng.choice(RULES + ["camelcase", "", "Snake_Case"])
         out.append(c)
     return out
